@@ -6,16 +6,18 @@
      rollback failure);
    - the tree before repair F24 (a body that exits its goroutine is committed);
    - seeded change C14-4 (a context that became done while Begin was in flight is treated like
-     a failed Begin: return before the deferred function is registered). *)
+     a failed Begin: return before the deferred function is registered);
+   - seeded change C14-5 (no Rollback when the body's error matches driver.ErrBadConn). *)
 From Coq Require Import List ZArith Bool.
 From GZ Require Import C14.Model.
 Import ListNotations.
 Open Scope Z_scope.
 
-Definition ok : reply := mkReply OOk false.
-Definition fl : reply := mkReply OFail false.
+Definition ok : reply := mkReply OOk false vgen.
+Definition fl : reply := mkReply OFail false vgen.
+Definition bad : reply := mkReply OFail false (mkVal VBadConn MWrap).
 Definition stx : step := mkStep (AStmt MExec true) FStop.
-Definition sc1 (steps : list step) (f : fin) : script := mkScript true false true true 1 steps f 0.
+Definition sc1 (steps : list step) (f : fin) : script := mkScript true false true true 1 [] steps f 0.
 
 (* ---- C14-1 / C14-2: err = tx.Commit() became "if err := tx.Commit(); err != nil { log }" ---- *)
 Definition ret_commit_dropped (o : bout) (x : endres) : ret :=
@@ -32,7 +34,7 @@ Theorem commit_error_dropped_refuted :
     ecall e = CCommit /\ eout e = OFail /\ rret r = RetErr ENil.
 Proof.
   exists [sc1 [stx] RNil], [0; 0; 0]%nat, [ok; ok; fl].
-  eexists. eexists. exists (mkEnt 0 1 CCommit OFail). vm_compute. repeat split; auto.
+  eexists. eexists. exists (mkEnt 0 1 CCommit OFail vgen). vm_compute. repeat split; auto.
 Qed.
 
 (* ---- C14-3: "if fnErr != nil { return fnErr }" after the breaker call -------------------- *)
@@ -50,8 +52,8 @@ Theorem rollback_failure_lost_refuted :
     tst th = TDone r /\ In e (proj 0 (wlog (exec_with ret_body_error_as_is true scs sched orc))) /\
     ecall e = CRollback /\ eout e = OFail /\ reports_rollback_failure (rret r) = false.
 Proof.
-  exists [sc1 [stx] RErr], [0; 0; 0]%nat, [ok; ok; fl].
-  eexists. eexists. exists (mkEnt 0 1 CRollback OFail). vm_compute. repeat split; auto.
+  exists [sc1 [stx] (RErr vgen)], [0; 0; 0]%nat, [ok; ok; fl].
+  eexists. eexists. exists (mkEnt 0 1 CRollback OFail vgen). vm_compute. repeat split; auto.
 Qed.
 
 (* ---- before F24: no "fn never returned" guard ([g = false]) ------------------------------- *)
@@ -63,7 +65,7 @@ Theorem goexit_unguarded_refuted :
     In e (proj 0 (wlog (exec false scs sched orc))) /\ ecall e = CCommit /\ eout e = OOk.
 Proof.
   exists [sc1 [stx] RGoexit], [0; 0; 0]%nat, [].
-  eexists. eexists. exists (mkEnt 0 1 CCommit OOk). vm_compute. repeat split; auto.
+  eexists. eexists. exists (mkEnt 0 1 CCommit OOk vgen). vm_compute. repeat split; auto.
 Qed.
 
 (* ---- C14-4: "if err == nil { err = ctx.Err() }; if err != nil { return }" after b(conn) ----- *)
@@ -71,11 +73,11 @@ Definition tstep_ctx_after_begin (g : bool) (t : nat) (sc : script) (st : tstate
   match st with
   | TIdle =>
     if let_through sc then
-      let '(o, c, l, orc1) := drv t (sconn sc) CBegin orc in
+      let '(o, v, c, l, orc1) := begin_all max_begin_retries t (sretry sc) (sconn sc) orc in
       match o with
       | OOk => if sctxapi sc && c then (TDone (mkRes 0 None (RetErr ECanceled) false), l, orc1, false)
                else (TBody 0 (ssteps sc) c false, l, orc1, false)
-      | _ => (TDone (mkRes 0 None (RetErr EBegin) false), l, orc1, false)
+      | _ => (TDone (mkRes 0 None (RetErr (EBegin v)) false), l, orc1, false)
       end
     else tstep g t sc st orc
   | _ => tstep g t sc st orc
@@ -92,24 +94,59 @@ Theorem begun_never_ended_refuted :
     (count (fun e => on_conn 1 e && ent_end e) (wlog W) +
      length (filter (fun th => holds_conn th && Z.eqb (sconn (tsc th)) 1%Z) (wthreads W)))%nat.
 Proof.
-  exists [sc1 [stx] RNil], [0; 0; 0]%nat, [mkReply OOk true].
+  exists [sc1 [stx] RNil], [0; 0; 0]%nat, [mkReply OOk true vgen].
+  eexists. eexists. vm_compute. repeat split; auto. discriminate.
+Qed.
+
+(* ---- C14-5: "if connLost(err) { return }" before the Rollback of the error branch ------------ *)
+Definition berr_badconn (b : berr) : bool :=
+  match b with
+  | BUser v | BStmt _ v | BSelfC _ v | BSelfR _ v => is_badconn v
+  | _ => false
+  end.
+
+Definition finish_badconn_skips (g : bool) (t : nat) (sc : script) (done : bool) (o : bout)
+  (orc : list reply) : qout :=
+  match o with
+  | BErr b => if berr_badconn b then (TDone (mkRes 1 (Some o) (RetErr (EBody b)) done), [], orc, false)
+              else finish g t sc done o orc
+  | _ => finish g t sc done o orc
+  end.
+
+(* the k-th statement fails with (an error wrapping) driver.ErrBadConn and the body returns it:
+   the transaction is over for the caller, was begun, and is never ended *)
+Theorem badconn_never_ended_refuted :
+  exists scs sched orc th r,
+    let W := exec_gen (tstep_fin (finish_badconn_skips true)) scs sched orc in
+    nth_error (wthreads W) 0 = Some th /\ tst th = TDone r /\
+    count begun_ok (proj 0 (wlog W)) = 1%nat /\ count ent_end (proj 0 (wlog W)) = 0%nat /\
+    count (fun e => on_conn 1 e && begun_ok e) (wlog W) <>
+    (count (fun e => on_conn 1 e && ent_end e) (wlog W) +
+     length (filter (fun th => holds_conn th && Z.eqb (sconn (tsc th)) 1%Z) (wthreads W)))%nat.
+Proof.
+  exists [sc1 [stx; stx] RNil], [0; 0; 0]%nat, [ok; ok; bad].
   eexists. eexists. vm_compute. repeat split; auto. discriminate.
 Qed.
 
 (* the same runs on the code as it is *)
 Example commit_error_kept :
   map tst (wthreads (exec true [sc1 [stx] RNil] [0; 0; 0]%nat [ok; ok; fl])) =
-  [TDone (mkRes 1 (Some BNil) (RetErr (ECommit DrvCommit)) false)].
+  [TDone (mkRes 1 (Some BNil) (RetErr (ECommit (DrvCommit vgen))) false)].
 Proof. vm_compute. reflexivity. Qed.
 Example rollback_failure_kept :
-  map tst (wthreads (exec true [sc1 [stx] RErr] [0; 0; 0]%nat [ok; ok; fl])) =
-  [TDone (mkRes 1 (Some (BErr BUser)) (RetErr (ETxFailed BUser DrvRollback)) false)].
+  map tst (wthreads (exec true [sc1 [stx] (RErr vgen)] [0; 0; 0]%nat [ok; ok; fl])) =
+  [TDone (mkRes 1 (Some (BErr (BUser vgen))) (RetErr (ETxFailed (BUser vgen) (DrvRollback vgen))) false)].
 Proof. vm_compute. reflexivity. Qed.
 Example goexit_guarded :
   wlog (exec true [sc1 [stx] RGoexit] [0; 0; 0]%nat []) =
-  [mkEnt 0 1 CBegin OOk; mkEnt 0 1 (CStmt 0 KExec) OOk; mkEnt 0 1 CRollback OOk].
+  [mkEnt 0 1 CBegin OOk vgen; mkEnt 0 1 (CStmt 0 KExec) OOk vgen; mkEnt 0 1 CRollback OOk vgen].
+Proof. vm_compute. reflexivity. Qed.
+Example badconn_statement_is_rolled_back :
+  wlog (exec true [sc1 [stx; stx] RNil] [0; 0; 0]%nat [ok; ok; bad]) =
+  [mkEnt 0 1 CBegin OOk vgen; mkEnt 0 1 (CStmt 0 KExec) OOk vgen;
+   mkEnt 0 1 (CStmt 1 KExec) OFail (mkVal VBadConn MWrap); mkEnt 0 1 CRollback OOk vgen].
 Proof. vm_compute. reflexivity. Qed.
 Example cancelled_during_begin_is_ended :
-  wlog (exec true [sc1 [stx] RNil] [0; 0; 0]%nat [mkReply OOk true]) =
-  [mkEnt 0 1 CBegin OOk; mkEnt 0 1 CRollback OOk].
+  wlog (exec true [sc1 [stx] RNil] [0; 0; 0]%nat [mkReply OOk true vgen]) =
+  [mkEnt 0 1 CBegin OOk vgen; mkEnt 0 1 CRollback OOk vgen].
 Proof. vm_compute. reflexivity. Qed.
